@@ -273,13 +273,13 @@ def check_C07(tier):
     cases = '4000' if tier == 'thorough' else '250'
     agg = Agg('C07')
     for variant in (('fast', 'san') if tier == 'thorough' else ('fast',)):
-        b = compile_bin('history', ['checks/history.cc'], variant, libs=['-lrapidcheck'])
+        b = compile_bin('history', ['checks/history.cc'], variant, libs=['-lrapidcheck'], inc=[vlib.build_ref()])
         agg.add(run_native(b, ['--seed', str(seed()), '--cases', cases if variant == 'fast' else '600', '--known', known_tsv('C07')], NCPU, 'C07-' + variant))
-    rule = ('rapidcheck-generated API histories (up to ~100 operations, whole-sequence shrinking) over 4 generator slots and 18 configurations (angular-correlation nuclides, deep cascades, chains, '
-            'window mode, 4b, b+ modes): create+initialise, shoot into a fresh / reused / pre-filled (junk particles) / shrink_to_fit event, reset+re-initialise, destroy, interleaved across slots; '
-            'oracle at every shot: fresh generator + fresh event on the same init and shot tapes, bit-identical; non-trivial & distinct = (target configuration, history shape) where the shot had '
+    rule = ('rapidcheck-generated API histories (up to ~100 operations, whole-sequence shrinking) over 4 generator slots and ~85 configurations (21 hand-picked: angular correlations, deep cascades, chains, window mode, 4b, b+ modes; plus every published background name), shot tapes steered onto the reference thresholds'
+            ' and drawn from a small pool so that the same (configuration, tape) recurs in different histories: create+initialise, shoot into a fresh / reused / pre-filled (junk particles) / shrink_to_fit event, reset+re-initialise, destroy, interleaved across slots; '
+            'oracle at every shot: what a PRISTINE PROCESS (forked before any library call; fresh generator, fresh event) produces for the same configuration, init tape and shot tape, bit-identical incl. deviates consumed; non-trivial & distinct = (target configuration, history shape) where the shot had '
             '>=1 earlier shot on the same instance, >=1 operation on another instance in between, and a non-fresh event')
-    return verdict(agg, tier, t0, rule, ['tapes are plain-uniform (history dependence, not branch coverage, is under test)', 'thorough tier repeats the histories against the ASan/UBSan build'], min_eval=500)
+    return verdict(agg, tier, t0, rule, ['the oracle process is forked before any library call, so it shares no function-local static, cache or global with the history under test', 'thorough tier repeats the histories against the ASan/UBSan build'], min_eval=500)
 
 
 def check_C10(tier):
@@ -498,7 +498,7 @@ def check_C08(tier):
         b = compile_bin('refdiff', ['checks/refdiff.cc'], 'san', ref=True)
         agg.add(run_native(b, ['--prop', 'C01', '--seed', str(seed()), '--cases', '3000', '--known', known_tsv('C01')], NCPU, 'C08-c01'), crash_prop='C08')
         agg.add(run_native(b, ['--prop', 'C02', '--seed', str(seed()), '--grid', 'strat', '--evts', '100', '--known', known_tsv('C02')], NCPU, 'C08-c02'), crash_prop='C08')
-        b = compile_bin('history', ['checks/history.cc'], 'san', libs=['-lrapidcheck'])
+        b = compile_bin('history', ['checks/history.cc'], 'san', libs=['-lrapidcheck'], inc=[vlib.build_ref()])
         agg.add(run_native(b, ['--seed', str(seed()), '--cases', '300'], NCPU, 'C08-c07'), crash_prop='C08')
         b = compile_bin('mdlcheck', ['checks/mdlcheck.cc'], 'san')
         agg.add(run_native(b, ['--seed', str(seed()), '--cases', '400000'], NCPU, 'C08-c10'), crash_prop='C08')
@@ -528,7 +528,7 @@ def replay(prop, path):
         return r.returncode
     if prop in ('C07', 'C09'):
         nm, src = {'C07': ('history', 'checks/history.cc'), 'C09': ('proto', 'checks/proto.cc')}[prop]
-        b = compile_bin(nm, [src], 'fast', libs=['-lrapidcheck', '-rdynamic'] if prop == 'C09' else ['-lrapidcheck'])
+        b = compile_bin(nm, [src], 'fast', libs=['-lrapidcheck', '-rdynamic'] if prop == 'C09' else ['-lrapidcheck'], inc=[vlib.build_ref()])
         r = subprocess.run([b, '--replay', path], env=run_env())
         return r.returncode
     if prop == 'C11':
@@ -574,7 +574,7 @@ def setup_all():
     compile_bin('gencheck', ['checks/gencheck.cc'], 'fast', inc=[refd])
     compile_bin('gencheck', ['checks/gencheck.cc'], 'san', inc=[refd])
     compile_bin('proto', ['checks/proto.cc'], 'fast', libs=['-lrapidcheck', '-rdynamic'])
-    compile_bin('history', ['checks/history.cc'], 'fast', libs=['-lrapidcheck'])
+    compile_bin('history', ['checks/history.cc'], 'fast', libs=['-lrapidcheck'], inc=[refd])
     compile_bin('readercheck', ['checks/readercheck.cc'], 'fast', libs=['-lrapidcheck'])
     compile_bin('mdlcheck', ['checks/mdlcheck.cc'], 'fast')
     compile_bin('kernels', ['checks/kernels.cc'], 'fast')
